@@ -2,6 +2,8 @@
 // written from ISO 32000-1:2008 7.3.4.2 (literal strings, Table 3) and 7.3.4.3 (hexadecimal strings, Table 1).
 use vstd::prelude::*;
 verus! {
+//@@ INCLUDE _common/std_specs_u8.rs
+
 global size_of usize == 8;
 
 //@@ PDFERROR
